@@ -45,3 +45,21 @@ prop("C10",
                   "Flocq binary64 arithmetic = Go float64 arithmetic (validated bit-for-bit by every case)"],
      note="Trusted: Coq kernel + vm_compute; stdlib real-number axioms via Flocq; correspondence harness. "
           "Modelled not verified: strconv.ParseFloat on plain decimals, encoding/csv on the generated rows.")
+
+GPMF_NOTE = ("Trusted: Coq kernel + vm_compute; correspondence harness (KLV synthesiser, tree dumper). Modelled not verified: "
+             "encoding/binary + io.ReadFull/CopyN/LimitedReader semantics on an in-memory byte slice, time.Parse for the "
+             "16-byte GPMF date layout, strings.TrimRight/Replacer on bytes, Go float32->float64 and int->float64 conversions (via Flocq).")
+
+prop("C06",
+     axioms="reals",
+     design_ref="DESIGN.md section 5 C06",
+     technique="Rocq proof (big-endian value round trip, value counts, walker = pruned preorder) + in-Coq correspondence of the reader model against Reader.Read/Walk on synthesised KLV forests and every prefix",
+     text="Theorems about the Gallina port of Reader.read/Element.format: integer and fixed-point values of every width decode to "
+          "the encoded value over the full range, an element exposes size*repeat/width values in order, the walker visits the "
+          "pre-order and prunes exactly skipped sub-trees.  The reader model (header, payload, padding, nested limit, formatters) is "
+          "tied to the code by comparing whole dumped trees and walker logs on generated forests, their prefixes and the repository's raw captures.",
+     rule="one case = one byte stream (random forest depth 1-4 over all 16 types, sizes 1..255, repeats 0..6 and a few hundred; "
+          "every/each-third prefix of encodings <= 96 bytes; container followed by siblings; raw captures) + a walker skip modulus; "
+          "distinct = distinct (bytes, modulus); non-trivial = at least 12 bytes",
+     assumptions=["well-formed streams come from the harness's own encoder (knode.encode)", "NaN payloads of type f/d values are compared as raw bits"],
+     note=GPMF_NOTE)
